@@ -129,14 +129,17 @@ def build_program(ctx, blocks, tagp=""):
 ARGLEN = (2, 0, 1)
 
 
-def h_client(blocks, L, initial):
+def h_client(blocks, L, initial, lens=None, absent=()):
+    """lens: optional per-field payload length (default L, id at most 3); absent: fields of the program that the caller does not
+    provide (C2Data leaves them None): they are encoded as the empty payload"""
     def body(ctx):
         steps, info = build_program(ctx, blocks)
         payloads = {}
         for field in ("metadata", "id", "output"):
             if any(b[0] == field for b in blocks):
-                payloads[field] = sym_bytes(field, L if field != "id" else min(L, 3))
-        c2data = c2.C2Data(**{k: (V.unwrap(v) if is_native() else v) for k, v in payloads.items()})
+                n = (lens or {}).get(field, L if field != "id" else min(L, 3))
+                payloads[field] = sym_bytes(field, 0 if field in absent else n)
+        c2data = c2.C2Data(**{k: (V.unwrap(v) if is_native() else v) for k, v in payloads.items() if k not in absent})
         if initial == "none":
             req0 = None
             base_uri, base_headers, base_params = b"", {}, {}
@@ -190,7 +193,9 @@ def h_client(blocks, L, initial):
         if kind == "ok":
             for field in ("metadata", "id", "output"):
                 got = getattr(back, field)
-                if field in payloads:
+                if field in absent:
+                    ctx.prove(got is None or len(as_bytes(got).cells) == 0, "a field the caller did not provide recovers as empty")
+                elif field in payloads:
                     ctx.prove(got is not None and deep_eq(as_bytes(got), payloads[field]) if got is not None else False,
                               "recover(transform(x)).%s == x.%s" % (field, field))
                 else:
@@ -319,6 +324,19 @@ def instances(tier):
                 out.append(Instance(nm, h_client(blocks, L, init), dict(kind="client_multi", L=L, init=init, region="D8"), expect="D8"))
             else:
                 out.append(Instance(nm, h_client(blocks, L, init), dict(kind="client_multi", L=L, init=init)))
+    # blocks of different payload lengths: an EMPTY or absent payload behind a non-empty block (each block starts from its own
+    # payload, nothing of the previous block may leak into it)
+    for b1, b2 in ((("id", ("prepend",), "header", []), ("output", ("base64",), "print", [])),
+                   (("metadata", ("netbios", "append"), "parameter", []), ("output", ("mask",), "print", [])),
+                   (("id", (), "parameter", []), ("output", ("prepend", "base64url"), "header", []))):
+        for lens, absent in ((dict([(b1[0], 2), (b2[0], 0)]), ()), (dict([(b1[0], 2)]), (b2[0],)), (dict([(b1[0], 0), (b2[0], 3)]), ())):
+            nm = "client blocks=%s:%s>%s+%s:%s>%s lens=%s absent=%s" % (b1[0], "/".join(b1[1]) or "-", b1[2], b2[0], "/".join(b2[1]) or "-", b2[2],
+                                                                         ",".join("%s=%d" % kv for kv in lens.items()), ",".join(absent) or "-")
+            out.append(Instance(nm, h_client([b1, b2], 2, "none", lens, absent), dict(kind="client_mixed_lengths", lens=lens, absent=list(absent))))
+    # static parameters with characters that URL-decoding would change: they are placed exactly as defined (key up to the first '=')
+    for raw in (b"q=a%20b+c", b"flag", b"e=", b"a=1&b=2", b"x=%zz=1"):
+        out.append(Instance("client static parameter %r" % raw, h_client([("metadata", ("base64",), "header", [("_PARAMETER", raw)])], 2, "none"),
+                            dict(kind="client_static", static=raw.decode())))
     dseqs = [()]
     DEC = ("append", "prepend", "base64", "base64url", "netbios", "netbiosu", "mask")
     for k in range(1, maxlen + 1):
